@@ -44,10 +44,9 @@ ASSUMPTIONS = ["image and mask have the same 2-d shape; mask is boolean; the smo
 EXHAUSTIVE = {"quick": False, "thorough": False}
 
 # ------------------------------------------------------------------------------------------------ static side
-# hand-written, pinned to the normalised AST: loops over shifted slices (openlines, circular_hough, regional_maximum);
-# convex_hull_transform translates automatically but its term, written as a tree, has 1.6e9 nodes (the language has
-# no sharing construct)
-HAND_TERMS = ["openlines", "circular_hough", "regional_maximum"]
+# hand-written, pinned to the normalised AST: regional_maximum (recursion + loops over the offsets of an arbitrary
+# structure with computed slice bounds); its term is stated over an abstract structure (LocS / ErodeS)
+HAND_TERMS = ["regional_maximum"]
 BINARY = ["bridge", "clean", "diag", "endpoints", "branchpoints", "fill", "fill4", "hbreak", "vbreak", "majority",
           "remove", "spur", "thicken", "thin", "skeletonize"]
 LISTED = ["median_filter", "grey_erosion", "grey_dilation", "opening", "closing", "white_tophat", "black_tophat",
